@@ -44,12 +44,15 @@ func PathFor(in interface{}) (string, error) {
 		return join(s.ToPath()), nil
 	}
 
+	rv := reflect.Indirect(reflect.ValueOf(in))
+	if !rv.IsValid() {
+		return "", fmt.Errorf("can not calculate path to nil %T", in)
+	}
+
 	ni, err := name.Interface(in)
 	if err != nil {
 		return "", err
 	}
-
-	rv := reflect.Indirect(reflect.ValueOf(in))
 
 	to := rv.Type()
 	k := to.Kind()
